@@ -32,6 +32,10 @@ def gen_value(kind, sizes, rng):
     return rng.randn(dim(args[0]), dim(args[1]), dim(args[2]))
   if name == 'idx':
     return int(rng.randint(0, dim(args[0])))
+  if name == 'spd':
+    d_ = dim(args[0])
+    A_ = rng.randn(d_, d_)
+    return A_ @ A_.T + 0.5 * np.eye(d_)
   if name == 'real':
     return float(rng.randn())
   if name == 'nnreal':
